@@ -1,5 +1,6 @@
 """C01 — check configuration and MANIFEST entry."""
-CFG = {
+CFG = {'long_max_vertices': 150,   # the exact oracle is quadratic in the vertex count
+ 
     "translator": True,
     "count": {"quick": 64000, "thorough": 3000000},
     "lean_files": ["GeoModel/RelateSpec.lean", "GeoModel/Valid.lean", "GeoModel/Locate.lean", "GeoModel/Segment.lean",
